@@ -107,11 +107,15 @@ LEVEL_TEXT = ("Machine-checked proof (Coq 8.16 + std++) over the executable Conf
               "is tied to the code by a differential run: for pairs of reachable configurations the real A.diff(&B) is "
               "dispatched on a clone of A (release profile) and the number of requests, the number rejected and whether "
               "B is reached are compared with the extracted model; the property's oracle is evaluated on the implementation.")
-LEVEL_NOTE = ("PARTIAL: the end-to-end theorem apply_diff is proved section by section only for the http and https frontend "
-              "sections (apply_diff_fronts) and end to end for configurations differing in those sections only "
-              "(apply_diff_fronts_only); listeners, clusters/backends (through the merge-join, itself proved correct), "
-              "tcp/udp frontends and certificates are covered by the correspondence runs only. Also proved: diff_map "
-              "soundness/completeness for every key order, diff A A = []. Equality is modulo empty buckets and the order "
-              "inside tcp/udp frontend buckets (order-only differences after a diff are an open finding: the Vec order "
-              "depends on HashSet iteration). HashSet iteration order inside diff is not modelled.")
+LEVEL_NOTE = ("PARTIAL: apply_diff (every request of diff(A,B) accepted by an instance holding A, which then holds B) is "
+              "proved section by section for the listeners of all four kinds (removed / added / changed with "
+              "re-activation and deactivation / late activation), clusters (merge-join composed with the handlers), "
+              "http/https frontends and certificates, and composed over the whole section order for reachable-invariant "
+              "states whose backends and tcp/udp frontends agree (apply_diff_sections); the backends and tcp/udp frontend "
+              "sections are covered by the correspondence runs only. No cross-section precondition is needed: ConfigState "
+              "checks no reference between maps. Also proved: diff_map soundness/completeness and key-uniqueness for every "
+              "key order, diff A A = []. Equality is modulo empty buckets and the order inside tcp/udp frontend buckets: "
+              "after a diff the Vec order follows HashSet iteration; it is not observable through routing, hash_state or any "
+              "replay path (finding closed, the debug assertion that compared it was relaxed). HashSet iteration order "
+              "inside diff is not modelled.")
 TECHNIQUE = "Rocq/Coq proof over an executable Gallina model (std++ gmap) + differential correspondence (extracted OCaml vs real crate)"
